@@ -133,3 +133,55 @@ class SimplifyWord(GroupVocab):
                     ("same_image", self.PPa(r.arr, r.n) == self.PPa(self.word.arr, self.word.n)),
                     ("not_longer", z3.And(r.n >= 0, r.n <= self.word.n))]
         return [("no_other_outcome", z3.BoolVal(False))]
+
+
+@pcontract("C05", "formal_inverse", "geometry_tools/utils/words.py", "formal_inverse")
+class FormalInverse(GroupVocab):
+    """formal_inverse(w) is the reversed word of inverse names; with G(inverse name) = G(name)^-1 its image is the inverse
+    of the image of w (lemma by induction on the length)"""
+
+    def setup(self, ip, st, fd):
+        self.word = VWord(z3.Const("w", WA), z3.Int("wlen"))
+        inverse_map = VFunc("inverse_map", ('builtin', lambda ip_, s, args, kwargs, line: [('val', s, VAtom(self.invg(ip_.as_atom(args[0], line))))]))
+        st.env.update({"word": self.word, "simple": VBool(z3.Bool("simple")), "inverse_map": inverse_map})
+        self.axioms = []
+        self.inverse_lemma()
+        return {}
+
+    def list_comprehension(self, ip, n, st):
+        # [inverse_map(g) for g in word[::-1]] : the only comprehension of this function; recognised structurally
+        import ast
+        gen = n.generators[0]
+        ok = (len(n.generators) == 1 and not gen.ifs and isinstance(gen.iter, ast.Subscript) and isinstance(gen.iter.slice, ast.Slice)
+              and gen.iter.slice.lower is None and gen.iter.slice.upper is None and isinstance(gen.iter.slice.step, ast.UnaryOp)
+              and isinstance(n.elt, ast.Call) and isinstance(n.elt.func, ast.Name) and n.elt.func.id == "inverse_map"
+              and len(n.elt.args) == 1 and isinstance(n.elt.args[0], ast.Name) and n.elt.args[0].id == gen.target.id)
+        if not ok:
+            raise Refuse("unexpected comprehension in formal_inverse")
+        w = self.word
+        r = fresh(WA, "rev")
+        k = z3.Int("k_")
+        st.pc.append(z3.ForAll([k], z3.Implies(z3.And(k >= 0, k < w.n), r[k] == self.invg(w.arr[w.n - 1 - k]))))
+        return [('val', st, VWord(r, w.n))]
+
+    def requires(self, ip, st, ctx):
+        return [self.word.n >= 0]
+
+    def post(self, ip, o, st0, ctx):
+        if o.kind == 'return' and isinstance(o.value, VWord):
+            r, w = o.value, self.word
+            k = z3.Int("k_")
+            return [("reversed_word_of_inverse_names", z3.And(r.n == w.n, z3.ForAll([k], z3.Implies(z3.And(k >= 0, k < w.n), r.arr[k] == self.invg(w.arr[w.n - 1 - k])))))]
+        return [("no_other_outcome", z3.BoolVal(False))]
+
+    def inverse_lemma(self):
+        """for r the reversed word of inverse names of w (length n):  PP(w, n) . PP(r, j) = PP(w, n - j)  (induction on j);
+        at j = n:  PP(w, n) . PP(r, n) = 1"""
+        w, r = z3.Const("w0", WA), z3.Const("r0", WA)
+        n, j0, k, x = z3.Int("n0"), z3.Int("j0"), z3.Int("k_"), z3.Const("x__", Atom)
+        hyp = [n >= 0, z3.ForAll([k], z3.Implies(z3.And(k >= 0, k < n), r[k] == self.invg(w[n - 1 - k]))),
+               z3.ForAll([x], self.Gf(self.invg(x)) == self.invf(self.Gf(x)))]
+        ax = self.pp_axioms() + self.group_axioms()
+        Pj = lambda jj: self.mulf(self.PPa(w, n), self.PPa(r, jj)) == self.PPa(w, n - jj)
+        self._lemmas.append(("inverse_image_base", hyp, Pj(z3.IntVal(0)), ax))
+        self._lemmas.append(("inverse_image_step", hyp + [z3.And(0 <= j0, j0 < n), Pj(j0)], Pj(j0 + 1), ax))
